@@ -4,6 +4,7 @@ use crate::api::{self, Ev, Outcome, Val};
 use crate::choice::Choices;
 use crate::grammar::{self, Verdict, E};
 use crate::run::{Case, Failure, ShardCtx};
+use crate::vocab;
 use rust_decimal::Decimal;
 use serde_json::{json, Value};
 use std::str::FromStr;
@@ -253,6 +254,59 @@ pub fn near_constants() -> Vec<&'static str> {
         "1.4446678610097661", "1.444667", "1.4447", "0.36787944117144233", "0.367879441", "0.6931471805599453", "0.69314718", "1.618033988749895", "0.5772156649015329", "2.302585092994046", "1.0000001", "0.9999999",
         "1.00000001", "1.000000001", "0.999999999",
     ]
+}
+
+/// Calls that fail, one per way of failing and per kind of node the failure has to travel through on its way out
+/// (lexer error, parse error, evaluation error under every operator / function / bracket form). Used by the
+/// `after-failures` sub-checks: a resource that is not released on the error path (a depth counter, a scratch
+/// buffer) only shows after many such calls on one thread.
+pub fn failing_templates(ev: Ev) -> Vec<String> {
+    let cores: Vec<&str> = match ev {
+        Ev::I64 => vec!["(1/0)", "(9223372036854775807+1)"],
+        Ev::Dec => vec!["(1/0)", "w(-5)", "ln(0)"],
+        Ev::Cpx => vec![],
+        _ => vec!["w(-5)", "w(-0.5)"],
+    };
+    let mut wraps: Vec<&str> = vec!["C", "-C", "2*C", "C*2", "2(C)", "C+1", "1-C", "C/2", "2^C", "C^2", "abs(C)", "(C)", "C²", "-C*2", "3C-1", "min(1,C)", "max(C,1,2)", "pow(C,2)", "mod(7,C)", "--C"];
+    if vocab::has_fact(ev) {
+        wraps.extend(["C!", "-C!", "2*C!"]);
+    }
+    if vocab::has_floor_brackets(ev) {
+        wraps.extend(["⌊C⌋", "⌈C⌉*2"]);
+    }
+    if vocab::has_deg(ev) {
+        wraps.extend(["C°", "C rad"]);
+    }
+    let mut out: Vec<String> = Vec::new();
+    for c in cores {
+        for w in &wraps {
+            out.push(w.replace('C', c));
+        }
+    }
+    for bad in ["(", "1+", "2*(3", "1..2", "1.2.3", "#", "abs(", "min(1,", "2 3", ")", "1 +* 2", "@@", "sqrt()", "-", "2^", "((((((((1", "1,2"] {
+        out.push(bad.to_string());
+    }
+    out
+}
+
+/// Expressions every evaluator must keep answering the same way whatever happened before.
+pub fn probe_expressions(ev: Ev) -> Vec<&'static str> {
+    match ev {
+        Ev::I64 => vec!["2+3*4", "17%5", "84/2", "3^3", "20!", "min(3,1,2)", "-7+@"],
+        Ev::Cpx => vec!["2+3*4", "(1+2i)*(3-i)", "sqrt(16)", "i*i", "@+1"],
+        Ev::Dec => vec!["2+3*4", "17%5", "84/2", "0.1+0.2", "ceil(2.4)", "min(3,1,2)", "@*2"],
+        _ => vec!["2+3*4", "17%5", "84/2", "3^39", "20!", "ceil(2.4)", "sqrt(2)*3", "min(3,1,2)", "@+1"],
+    }
+}
+
+pub const EXHAUST_CALLS: usize = 1100;
+
+/// Evaluates `template` EXHAUST_CALLS times on the current thread (results ignored).
+pub fn exhaust(sc: &mut ShardCtx, ev: Ev, template: &str, ph: &Val) {
+    for _ in 0..EXHAUST_CALLS {
+        let _ = api::eval(ev, template, ph);
+    }
+    sc.evals(EXHAUST_CALLS as u64);
 }
 
 pub fn selftest() {
